@@ -36,8 +36,10 @@ MODULES = {
                                       n3=['iterate_combinations']),
     'remapping_loop': dict(src='remapping_loop.rs', only=['enum WorkingRepeat', 'enum Device', 'enum PollResult',
                                                          'trait Driver', 'enum Next', 'fn do_remapping_loop_one_device'],
-                           uses=['use crate::keys::{Layout, Event, KeyCode};', 'use crate::key_transforms::{Mapper, ResultingRepeat};',
-                                 'use std::time::{Duration, Instant};', 'use crate::keys::{Pressed, Released};']),
+                           uses=['use crate::keys::{Layout, Event, KeyCode};', 'use crate::key_transforms;', 'use crate::key_transforms::ResultingRepeat;',
+                                 'use std::time::{Duration, Instant};', 'use crate::keys::Event::{Pressed, Released};', 'use std::thread;',
+                                 'use crate::tablet_mode_switch_reader::TableModeEvent::{On, Off};', 'use crate::tablet_mode_switch_reader::TableModeEvent;']),
+    'tablet_mode_switch_reader': dict(src='tablet_mode_switch_reader.rs', only=['enum TableModeEvent'], uses=[]),
     'udev_utils': dict(src='udev_utils.rs', only=['fn escape_one_char', 'fn systemd_arg_escape']),
 }
 
